@@ -41,6 +41,17 @@ def graph(tier):
     return _graph[tier]
 
 
+def respell(token: str, k: int) -> str:
+    """The same token in another spelling (it names the same token: the check percent-decodes what it is given)."""
+    k %= 3
+    if k == 0:
+        return token
+    if k == 1:
+        return unquote(token)
+    raw = unquote(token)
+    return '%%%02X' % ord(raw[0]) + token[len(raw[0]) if token[0] == raw[0] else 3:]
+
+
 def tamper(token: str, kind: str, other: str | None):
     raw = unquote(token)
     if kind == 'salt':
@@ -76,6 +87,7 @@ class SeamImpl:
     def reset(self):
         self.w.reset()
         self.tokens = {}
+        self.uses = {}
 
     def issue(self, tid, c, s):
         with self.w.app.test_request_context('/x', headers={'Cookie': f'csrf={self.cookies[c]}'}):
@@ -90,7 +102,9 @@ class SeamImpl:
                 return 'no'
 
     def use(self, tid, c, s):
-        return self._check(self.tokens[tid], c, s)
+        k = self.uses.get(tid, 0)
+        self.uses[tid] = k + 1
+        return self._check(respell(self.tokens[tid], k), c, s)
 
     def tamper(self, tid, kind, issued_by):
         c, s = issued_by
@@ -114,6 +128,7 @@ class EndpointImpl:
             rc.login()
             self.clients[c] = rc
         self.tokens = {}
+        self.uses = {}
 
     def issue(self, tid, c, s):
         r = self.w.request('GET', '/streams?ajax=1', client=self.clients[c].client)
@@ -140,7 +155,13 @@ class EndpointImpl:
         return 'ok' if r.status == 200 and 'id' in js else 'no'
 
     def use(self, tid, c, s):
-        return self._send(self.tokens[tid], c, s)
+        from urllib.parse import quote
+        k = self.uses.get(tid, 0)
+        self.uses[tid] = k + 1
+        tok = respell(self.tokens[tid], k)
+        if s == 's1' and k % 3 == 1:
+            tok = quote(tok, safe='')      # the decoded spelling travels in a query string: escaped once for transport
+        return self._send(tok, c, s)
 
     def tamper(self, tid, kind, issued_by):
         c, s = issued_by
